@@ -5,9 +5,9 @@ import CCV.Lemmas.OptimizerPasses
 -/
 namespace CCV.Optimizer
 
-/-- `out'` extends `out` by nodes that are not Input nodes -/
+/-- `out'` extends `out` by nodes that are neither Input nor randomising nor PRF nodes -/
 def NoInputExt (out out' : List Node) : Prop :=
-  ∃ ext, out' = out ++ ext ∧ ∀ n ∈ ext, n.op.isInput = false
+  ∃ ext, out' = out ++ ext ∧ ∀ n ∈ ext, n.op.isInput = false ∧ n.op.isRandom = false ∧ n.op.isPrf = false
 
 theorem NoInputExt.refl (out : List Node) : NoInputExt out out := ⟨[], by simp, by simp⟩
 
@@ -20,7 +20,8 @@ theorem NoInputExt.trans {a b c : List Node} (h1 : NoInputExt a b) (h2 : NoInput
     · exact g1 n h
     · exact g2 n h⟩
 
-theorem NoInputExt.snoc (out : List Node) (n : Node) (h : n.op.isInput = false) :
+theorem NoInputExt.snoc (out : List Node) (n : Node)
+    (h : n.op.isInput = false ∧ n.op.isRandom = false ∧ n.op.isPrf = false) :
     NoInputExt out (out ++ [n]) := ⟨[n], rfl, by simpa using h⟩
 
 theorem vget_ext : ∀ fuel : Nat,
@@ -42,9 +43,9 @@ theorem vget_ext : ∀ fuel : Nat,
         · simp at h; obtain ⟨_, rfl⟩ := h; exact NoInputExt.refl _
         · cases h
       · split at h <;> simp at h <;> obtain ⟨_, rfl⟩ := h <;>
-          exact NoInputExt.snoc _ _ (by simp [mkNode, Op.isInput])
+          exact NoInputExt.snoc _ _ (by simp [mkNode, Op.isInput, Op.isRandom, Op.isPrf])
       · simp at h; obtain ⟨_, rfl⟩ := h
-        exact NoInputExt.snoc _ _ (by simp [mkNode, Op.isInput])
+        exact NoInputExt.snoc _ _ (by simp [mkNode, Op.isInput, Op.isRandom, Op.isPrf])
       · split at h
         · cases h
         · rename_i out1 hv
@@ -52,7 +53,7 @@ theorem vget_ext : ∀ fuel : Nat,
           exact ih.2 _ _ _ _ _ _ _ hv
         · rename_i sl out1 hv
           simp at h; obtain ⟨_, rfl⟩ := h
-          exact (ih.2 _ _ _ _ _ _ _ hv).trans (NoInputExt.snoc _ _ (by simp [mkNode, Op.isInput]))
+          exact (ih.2 _ _ _ _ _ _ _ hv).trans (NoInputExt.snoc _ _ (by simp [mkNode, Op.isInput, Op.isRandom, Op.isPrf]))
       · simp at h; obtain ⟨_, rfl⟩ := h; exact NoInputExt.refl _
     · intro out vecs index idx acc r out' h
       unfold vgetAll at h
@@ -91,7 +92,7 @@ theorem inputsOf_noInput (ext : List Node) (h : ∀ n ∈ ext, n.op.isInput = fa
 theorem NoInputExt.inputsOf {out out' : List Node} (h : NoInputExt out out') :
     inputsOf out' = inputsOf out := by
   obtain ⟨ext, rfl, g⟩ := h
-  rw [inputsOf_append, inputsOf_noInput ext g]; simp
+  rw [inputsOf_append, inputsOf_noInput ext (fun n hn => (g n hn).1)]; simp
 
 theorem inputsOf_modify (out : List Node) (k : Nat) (f : Node → Node)
     (hf : ∀ n, (f n).op = n.op ∧ (f n).name = n.name ∧ (f n).ty = n.ty) :
@@ -185,7 +186,9 @@ theorem metaOps_inputs (g g' : Graph) (m : Mapping) (h : metaOps g = some (g', m
 def SpecialInj (src out : List Node) (m : Mapping) : Prop :=
   (∀ i k n, Maps m i k → src[i]? = some n → Special n.op →
      (∃ n', out[k]? = some n' ∧ n'.op = n.op) ∧
-     ∀ j nj, Maps m j k → src[j]? = some nj → Special nj.op → j = i) ∧
+     (∀ j nj, Maps m j k → src[j]? = some nj → Special nj.op → j = i) ∧
+     -- the special node is the first node mapped to its image (later getters may be resolved to it)
+     ∀ j, Maps m j k → i ≤ j) ∧
   (∀ k n', out[k]? = some n' → Special n'.op →
      ∃ i n, Maps m i k ∧ src[i]? = some n ∧ n.op = n'.op)
 
@@ -650,7 +653,7 @@ theorem metaStep_inputWF (fuel : Nat) (st st' : MSt) (n : Node) (hw : InputWF st
         | (simp at heq; obtain ⟨_, rfl⟩ := heq; exact NoInputExt.refl _)
         | exact applyMeta_ext _ _ _ _ _ _ heq
     obtain ⟨ext, rfl, hext⟩ := hext
-    apply inputWF_append _ hext
+    apply inputWF_append _ (fun n hn => (hext n hn).1)
     intro x hx hin
     rcases List.mem_append.mp hx with h | h
     · exact hw x h hin
